@@ -9,9 +9,10 @@
 (*   family A  all token sequences up to C_NA over C_TokensA (flat, unstructured)            *)
 (*   family B  method SEP path SEP version TERM x header blocks (HTTP / WAP / Spartan shapes) *)
 (*   family C  selector TAB field ... (Gopher / Gopher+ shapes, empty and blank fields)      *)
+(*   family L  long lines: shapes decided by the END of the line x length classes (x.pad)     *)
 EXTENDS Wire, MC_C02_consts, TLC
 
-VARIABLES x,        \* the case [line, tls, hdrs]
+VARIABLES x,        \* the case [line, pad, tls, hdrs]
           fam,      \* family the case was drawn from
           phase,    \* "in" (enumerated) -> "done" (evaluated)
           res       \* evaluation: al[p] = Claims(p) alone, det[l] = Detect(C_Lists[l]), m[p] = documented shape matches,
@@ -21,7 +22,7 @@ mvars == <<x, fam, phase, res>>
 RECURSIVE CatN(_, _, _)
 CatN(t, i, n) == IF i > n THEN "" ELSE t[i] \o CatN(t, i + 1, n)
 
-Case(l, t, h) == [line |-> l, tls |-> t, hdrs |-> h]
+Case(l, t, h) == [line |-> l, pad |-> 0, tls |-> t, hdrs |-> h]
 
 FamA == /\ fam = "A"
         /\ \E k \in 0..C_NA : \E t \in [1..k -> C_TokensA] : \E term \in C_TermsA, tl \in BOOLEAN, h \in C_HdrsA :
@@ -36,8 +37,16 @@ FamC == /\ fam = "C"
            \E term \in C_TermsC, tl \in BOOLEAN, h \in C_HdrsC :
                (h # <<>> => term # "") /\ x = Case(sel \o CatN([i \in 1..k |-> "\t" \o f[i]], 1, k) \o term, tl, h)
 
+\* family L: LONG lines - templates whose claim depends on the END of the line, with one PAD run of k filler letters
+\* inside the selector / path (k from the length classes C_Pads); TLC sees the PAD as one character, gamma writes k bytes
+FamL == /\ fam = "L"
+        /\ \E tpl \in C_LongLines, term \in C_TermsL, tl \in BOOLEAN, k \in C_Pads, h \in C_HdrsL :
+               (h # <<>> => term # "") /\ x = [line |-> tpl \o term, pad |-> k, tls |-> tl, hdrs |-> h]
+ASSUME \A tpl \in C_LongLines : CountCh(tpl, PAD) = 1
+ASSUME \A tok \in C_TokensA : CountCh(tok, PAD) = 0
+
 NoRes == [al |-> <<>>, det |-> <<>>, m |-> <<>>, mc |-> <<>>, pos |-> 0, dt |-> TRUE]
-Init == phase = "in" /\ res = NoRes /\ (FamA \/ FamB \/ FamC)
+Init == phase = "in" /\ res = NoRes /\ (FamA \/ FamB \/ FamC \/ FamL)
 
 Listed == {C_Listed[i] : i \in 1..Len(C_Listed)}
 ASSUME UNION {{C_Lists[l][i] : i \in 1..Len(C_Lists[l])} : l \in 1..Len(C_Lists)} \subseteq Listed
